@@ -188,6 +188,22 @@ def record(lentil, tier, seed):
         sa = lentil.spider((9, 10), 2.0, angle=rng.choice((0, 45, 120)))
         if sa.min() < -1e-12 or sa.max() > 1 + 1e-12:
             leaf.append(('shape-range', {'kind': 'spider'}))
+    # a rotation is a number of degrees however it is typed (a python int, a numpy integer of any width as read from a header):
+    # the drawing is the same, and a rectangle turned by 180 degrees is the rectangle
+    for _ in range(6 if q else 30):
+        sh_ = (rng.randint(60, 101), rng.randint(60, 101))
+        deg = rng.choice((180, 90, 30, 45, 120))
+        ref_r = lentil.rectangle(sh_, 40, 12, angle=deg, antialias=False)
+        ref_s = lentil.spider(sh_, 3.0, angle=deg, antialias=False)
+        for tp in (np.uint8, np.int16, np.uint16, np.int64, np.float32):
+            r_t = lentil.rectangle(sh_, 40, 12, angle=tp(deg), antialias=False)
+            s_t = lentil.spider(sh_, 3.0, angle=tp(deg), antialias=False)
+            if not (np.array_equal(r_t, ref_r) and np.array_equal(s_t, ref_s)):
+                leaf.append(('rotation-depends-on-the-type-of-the-angle', {'degrees': deg, 'type': np.dtype(tp).name, 'shape': list(sh_),
+                                                                          'rectangle_samples_differing': int((r_t != ref_r).sum()),
+                                                                          'spider_samples_differing': int((s_t != ref_s).sum())}))
+        if deg == 180 and not np.array_equal(lentil.rectangle(sh_, 40, 12, angle=np.uint8(180), antialias=False), lentil.rectangle(sh_, 40, 12, antialias=False)):
+            leaf.append(('half-turn-of-a-rectangle', {'angle_type': 'uint8', 'shape': list(sh_)}))
     # ---- hex rings and segmented apertures -------------------------------------------------------------------------
     import sys
     seg = sys.modules['lentil.segmented']
